@@ -126,6 +126,40 @@ pub fn interleave_hook(site: u32) {
     }
 }
 
+/// Called by the harness's own `Spin` lock around every critical section (threaded runs only).
+#[inline]
+pub fn lock_window() {
+    if !CONC_MODE.load(Ordering::Relaxed) {
+        return;
+    }
+    let r = HOOK_RUN.with(|r| r.get());
+    if r.is_null() {
+        return;
+    }
+    let x = HOOK_RNG.with(|c| {
+        let mut v = c.get();
+        v ^= v << 13;
+        v ^= v >> 7;
+        v ^= v << 17;
+        c.set(v);
+        v
+    });
+    match x % 16 {
+        0..=10 => {}
+        11..=13 => std::thread::yield_now(),
+        _ => {
+            if cfg!(miri) {
+                std::thread::yield_now();
+            } else {
+                let until = Instant::now() + Duration::from_micros(1 + (x >> 8) % 25);
+                while Instant::now() < until {
+                    std::hint::spin_loop();
+                }
+            }
+        }
+    }
+}
+
 pub fn enter_worker(run: &Arc<Run>, i: usize, seed: u64) {
     *run.tasks[i].thread.lock().unwrap() = Some(std::thread::current());
     HOOK_RNG.with(|c| c.set(seed | 1));
@@ -279,6 +313,11 @@ pub fn supervise(run: &Arc<Run>, wall_limit: Duration) -> Verdict {
             stable = 0;
         }
         last_ops = ops;
+        if WORKER_PANICKED.load(Ordering::Relaxed) {
+            // give the panicking thread a moment to unwind, then end the run
+            std::thread::sleep(Duration::from_millis(5));
+            return Verdict::Watchdog;
+        }
         if t0.elapsed() > wall_limit {
             return Verdict::Watchdog;
         }
@@ -319,3 +358,6 @@ pub fn sig_of(logs: &[Vec<LogEv>]) -> u64 {
 }
 
 pub static LIVE_NODES: AtomicUsize = AtomicUsize::new(0);
+/// Set by the panic hook while threaded workloads run: the supervisor ends the run at once.
+pub static WORKER_PANICKED: AtomicBool = AtomicBool::new(false);
+pub static CONC_MODE: AtomicBool = AtomicBool::new(false);
